@@ -123,7 +123,11 @@ class unix_disabled(uh.ifc.DisabledHash, uh.MinimalHandler):
             hash = to_native_str(hash, param="hash")
             if cls.identify(hash):
                 # extract original hash, so that we normalize marker
-                hash = cls.enable(hash)
+                try:
+                    hash = cls.enable(hash)
+                except ValueError:
+                    # already disabled, without an original hash embedded
+                    hash = None
             if hash:
                 out += hash
         return out
